@@ -105,10 +105,11 @@ def diff_predictions(a, b):
     return out
 
 
-def save_and_reload(lk, tabs, backend, route="path"):
-    """save through JSON text; returns (first generation dict, reloaded linker)"""
+def save_and_reload(lk, tabs, backend, route="path", path=None):
+    """save through JSON text; returns (first generation dict, reloaded linker).  With `path` the same
+    file is (over)written at every call, as a user who keeps saving a model under one name does."""
     with tempfile.TemporaryDirectory(prefix="c09_", dir="/var/tmp") as td:
-        path = os.path.join(td, "model.json")
+        path = path or os.path.join(td, "model.json")
         d1 = lk.misc.save_model_to_json(path, overwrite=True)
         text = open(path, encoding="utf-8").read()
         d1_text = json.loads(text)
@@ -117,6 +118,73 @@ def save_and_reload(lk, tabs, backend, route="path"):
         else:
             lk2 = linker_for(tabs, json.loads(text), backend)
     return d1, d1_text, lk2
+
+
+def level_layout(settings_obj):
+    return [[(lv.sql_condition, lv.comparison_vector_value, bool(lv.is_null_level)) for lv in c.comparison_levels]
+            for c in settings_obj.comparisons]
+
+
+def overwrite_witness():
+    """the file route: save, change the model, save again to the SAME path with overwrite=True, load by path"""
+    import splink.comparison_library as cl
+    tabs, lk = tiny_linker([cl.ExactMatch("first_name"), cl.LevenshteinAtThresholds("surname", 1)])
+    got = {}
+    with tempfile.TemporaryDirectory(prefix="c09_", dir="/var/tmp") as td:
+        path = os.path.join(td, "model.json")
+        d0 = json.loads(json.dumps(lk.misc.save_model_to_json(path)))
+        got["first_save_written"] = os.path.isfile(path) and json.loads(open(path).read()) == d0
+        try:
+            lk.misc.save_model_to_json(path)          # exists, overwrite=False: must refuse and leave the file
+            got["refuses_without_overwrite"] = False
+        except ValueError:
+            got["refuses_without_overwrite"] = json.loads(open(path).read()) == d0
+        got["training"] = [apply_training(lk, "u", None)]
+        lk._settings_obj._probability_two_random_records_match = 0.03125
+        d1 = json.loads(json.dumps(lk.misc.save_model_to_json(path, overwrite=True)))
+        on_disk = json.loads(open(path).read())
+        got["model_changed"] = d1 != d0
+        got["file_is_second_save"] = on_disk == d1
+        got["file_still_first_save"] = on_disk == d0
+        lk2 = linker_for(tabs, path, "duckdb")
+    got["prior_live"] = lk._settings_obj._probability_two_random_records_match
+    got["prior_reloaded"] = lk2._settings_obj._probability_two_random_records_match
+    diffs = diff_predictions(predict_rows(lk), predict_rows(lk2))
+    if diffs:
+        got["prediction_differences"] = diffs
+    ok = got["first_save_written"] and got["refuses_without_overwrite"] and got["model_changed"] \
+        and got["file_is_second_save"] and got["prior_live"] == got["prior_reloaded"] and not diffs
+    return ok, got, {"steps": ["save(path)", "save(path) must raise", "estimate_u + set prior 1/32", "save(path, overwrite=True)",
+                               "Linker(df, path)"]}
+
+
+def null_position_witness(position):
+    """a comparison whose null level is not the first level (or absent): order of levels, comparison vector
+    values and gammas must be the same in the reloaded model"""
+    null = {"sql_condition": "first_name_l IS NULL OR first_name_r IS NULL", "label_for_charts": "null", "is_null_level": True}
+    exact = {"sql_condition": "first_name_l = first_name_r", "label_for_charts": "exact", "m_probability": 0.75, "u_probability": 0.125}
+    fuzzy = {"sql_condition": "substr(first_name_l, 1, 1) = substr(first_name_r, 1, 1)", "label_for_charts": "initial",
+             "m_probability": 0.1875, "u_probability": 0.25}
+    other = {"sql_condition": "ELSE", "label_for_charts": "else", "m_probability": 0.0625, "u_probability": 0.625}
+    levels = {"first": [null, exact, fuzzy, other], "second": [exact, null, fuzzy, other], "before_else": [exact, fuzzy, null, other],
+              "absent": [exact, fuzzy, other]}[position]
+    comp = {"output_column_name": "first_name", "comparison_levels": levels}
+    tabs, lk = tiny_linker([comp, {"output_column_name": "city", "comparison_levels": [
+        {"sql_condition": "city_l IS NULL OR city_r IS NULL", "label_for_charts": "n", "is_null_level": True},
+        {"sql_condition": "city_l = city_r", "label_for_charts": "e"},
+        {"sql_condition": "ELSE", "label_for_charts": "o"}]}], brs=["l.surname = r.surname", "l.city = r.city"])
+    live = level_layout(lk._settings_obj)
+    p1 = predict_rows(lk)
+    d1, d1_text, lk2 = save_and_reload(lk, tabs, "duckdb")
+    got = {"live": live, "json": [[lv["sql_condition"] for lv in c["comparison_levels"]] for c in d1_text["comparisons"]],
+           "reloaded": level_layout(lk2._settings_obj)}
+    diffs = diff_predictions(p1, predict_rows(lk2))
+    if diffs:
+        got["prediction_differences"] = diffs
+    ok = [[list(x) for x in c] for c in got["live"]] == [[list(x) for x in c] for c in got["reloaded"]] \
+        and got["json"] == [[x[0] for x in c] for c in live] and not diffs
+    return ok, got, {"comparison": comp, "null_level_position": position}
+
 
 
 def getpath(obj, path):
@@ -394,6 +462,37 @@ def run_witnesses(ctx: Ctx):
     for k3 in ("dict", "creator", "library"):      # flags used by the generator
         flags.setdefault("description_" + k3, False)
     try:
+        ok, got, case = overwrite_witness()
+    except Exception as e:
+        ok, got, case = False, {"exception": repr(e)[:300]}, {}
+    flags["overwrite"] = ok
+    ctx.count_case(("witness", "overwrite"), True, None)
+    ctx.hist("witness", "overwrite" + (":ok" if ok else ":stale file"))
+    if not ok:
+        ctx.violation(f"saving a changed model to the same path with overwrite=True and loading it by path does not give the "
+                      f"live model: {str(got)[:400]}",
+                      {"case": case, "implementation": got,
+                       "specification": "the file holds the dictionary returned by the last save; the linker loaded from the path "
+                                        "scores like the live one; without overwrite an existing file is refused and left alone"},
+                      {"route": "file", "overwrite": True})
+    flags["null_position"] = True
+    for pos in ("first", "second", "before_else", "absent"):
+        try:
+            ok, got, case = null_position_witness(pos)
+        except Exception as e:
+            ok, got, case = False, {"exception": repr(e)[:300]}, {"null_level_position": pos}
+        ctx.count_case(("witness", "null position", pos), True, None)
+        ctx.hist("witness", f"null_level_{pos}" + (":ok" if ok else ":reordered"))
+        if not ok:
+            if flags["null_position"]:
+                ctx.violation(f"a comparison whose null level is at position '{pos}' reloads with a different level order / "
+                              f"comparison vector values / gammas: {str(got)[:400]}",
+                              {"case": case, "implementation": got,
+                               "specification": "levels in the JSON and in the reloaded comparison are in the in-memory order, with "
+                                                "the same comparison vector values; predict() (gamma columns included) agrees"},
+                              {"structure": "level_order", "null_level_position": pos})
+            flags["null_position"] = False
+    try:
         ok, got, case = unobserved_witness()
     except Exception as e:
         ok, got, case = False, {"exception": repr(e)[:300]}, {}
@@ -549,6 +648,15 @@ def oracle_blocking(p, k, sg, kinds):
 
 def report_pipeline_failures(ctx: Ctx, pipelines, okd, cexd):
     flags, wres = run_witnesses(ctx)
+    explained = {"children_order": "null_position", "save_route": "overwrite"}
+    for f in getattr(ctx, "shape_failures", []):
+        w = explained.get(f["group"])
+        if w is not None and flags.get(w) is False:
+            ctx.hist("failed_obligation_replay", f"{f['group']}:concrete input given by the {w} witness")
+            continue
+        ctx.violation(f"shape obligation failed ({f['group']}): {f['why']}; no concrete failing input found",
+                      {"broken": f"shape of the save route: {f['group']}", "why": f["why"]},
+                      {"shape": f["group"]}, found_input=False)
     reported = set(REPORTED)
     for p in pipelines:
         if okd.get(p.name, False):
@@ -685,9 +793,14 @@ def gen_comparison(rng, col, backend_portable, flags, as_dict_route):
                 if rng.random() < 0.5:
                     fuzzy["disable_tf_exact_match_detection"] = True
             meta["tf_weight"] = w
+        nulllv = {"sql_condition": f"{col}_l IS NULL OR {col}_r IS NULL", "label_for_charts": "null", "is_null_level": True}
+        lvls = [exact, fuzzy]
+        pos = rng.choice([0, 0, 1, 2, None])        # the null level need not come first, or exist
+        if pos is not None:
+            lvls.insert(pos, nulllv)
+        meta["null_position"] = pos
         comp = {"output_column_name": rng.choice([col, col + " cmp", "c_" + col]),
-                "comparison_levels": [{"sql_condition": f"{col}_l IS NULL OR {col}_r IS NULL",
-                                       "label_for_charts": "null", "is_null_level": True}, exact, fuzzy, other]}
+                "comparison_levels": lvls + [other]}
         if flags.get("description_dict") and rng.random() < 0.6:
             comp["comparison_description"] = rng.choice(["how " + col + " compares", "x", "Exact match",
                                                          comp["output_column_name"], "CustomComparison"])
@@ -908,8 +1021,12 @@ def correspondence(ctx: Ctx, pipelines, flags):
             plan.append(("duckdb", False, None))
     t_start = time.time()
     n_pred_cmp = 0
+    case_dirs = []
     for ci, (backend, portable, other) in enumerate(plan):
         case = gen_model(ctx.rng, flags, backend, portable)
+        case_dir = tempfile.TemporaryDirectory(prefix="c09m_", dir="/var/tmp")
+        case_dirs.append(case_dir)
+        case["path"] = os.path.join(case_dir.name, "model.json")      # one file per model, overwritten at every save
         descr_ok = all(v for k, v in flags.items() if k.startswith("description_"))
         info = {"case": ci, "backend": backend, "other_backend": other, "link_type": case["link_type"], "route": case["route"],
                 "comparisons": case["metas"], "history": case["history"], "options": case["opts"]}
@@ -938,6 +1055,8 @@ def correspondence(ctx: Ctx, pipelines, flags):
         ctx.hist("history", ",".join(op for op, _ in case["history"]) or "untrained")
         for m in case["metas"]:
             ctx.hist("comparison_kind", m["kind"])
+    for cd in case_dirs:
+        cd.cleanup()
     ctx.cov["models"] = len(plan)
     ctx.cov["save_reload_points"] = n_pred_cmp
     ctx.cov["x_wall_s"] = round(time.time() - t_start, 1)
@@ -994,15 +1113,15 @@ def check_point(ctx, case, lk, backend, other, info, trained, pt, descr_ok, add_
         ctx.count_case(key, False, None)
         return
     route = ctx.rng.choice(["path", "path", "dict"])
-    d1, d1_text, lk2 = save_and_reload(lk, case["tabs"], backend, route)
+    d1, d1_text, lk2 = save_and_reload(lk, case["tabs"], backend, route, path=case.get("path"))
     nontrivial = len(p1) >= 1 and (len(case["metas"]) >= 2) and (bool(trained) or bool(case["opts"]))
     ctx.count_case(key, nontrivial, {"link_type": case["link_type"], "route": case["route"], "history": trained,
                                      "comparisons": [m["kind"] for m in case["metas"]], "rows": len(p1)})
     ctx.hist("reload_route", route)
     # (1) JSON text is the returned dict
     if d1_text != json.loads(json.dumps(d1)):
-        ctx.violation("JSON file written by save_model_to_json differs from the returned dict",
-                      {"case": info, "implementation": {"file": d1_text, "returned": d1}}, {"json_file_differs": True})
+        limited(ctx, "json_file", "JSON file written by save_model_to_json (same path, overwrite=True) differs from the returned dict",
+                {"case": info, "implementation": {"file": d1_text, "returned": d1}}, {"json_file_differs": True})
     # (2) predictions
     p2 = predict_rows(lk2, uid)
     diffs = diff_predictions(p1, p2)
@@ -1028,9 +1147,11 @@ def check_point(ctx, case, lk, backend, other, info, trained, pt, descr_ok, add_
     shape2 = [(c.output_column_name, len(c.comparison_levels)) for c in s2.comparisons]
     brs1 = [type(b).__name__ for b in s1._blocking_rules_to_generate_predictions]
     brs2 = [type(b).__name__ for b in s2._blocking_rules_to_generate_predictions]
-    if shape1 != shape2 or brs1 != brs2:
+    lay1, lay2 = level_layout(s1), level_layout(s2)
+    if shape1 != shape2 or brs1 != brs2 or lay1 != lay2:
         limited(ctx, "structure", "reloaded model has a different structure", {"case": info, "settings_json": d1_text,
-                "implementation": {"in_memory": [shape1, brs1], "reloaded": [shape2, brs2]}}, {"structure_differs": True})
+                "implementation": {"in_memory": [shape1, brs1, lay1], "reloaded": [shape2, brs2, lay2]}},
+                {"structure_differs": True})
         return
     do_coq = ctx.rng.random() < (0.7 if ctx.quick else 0.4)
     if do_coq:
